@@ -1,0 +1,18 @@
+//go:build verif
+
+package multisig
+
+// Contracts for govc (/verif). Comment-only file: no executable code, not part of the default build.
+
+/*@
+// bit i of the signer bitmap (bit k of byte j has index 8*j+k)
+spec fn bitSet(bitmap []byte, i int) bool = ((bitmap[i / 8] >> uint8(i % 8)) & 1) == 1
+
+func (bms *blsMultiSigner) isIndexInBitmap(index uint16, bitmap []byte) (err error)
+  mode bv
+  requires bms.data != nil
+  requires group-fits-uint16: len(bms.data.pubKeys) <= 65535
+  requires bitmap-covers-group: len(bitmap) * 8 >= len(bms.data.pubKeys) && len(bitmap) <= 8192
+  ensures  selected-iff-member-bit-set: (err == nil) <==> (int(index) < len(bms.data.pubKeys) && bitSet(bitmap, int(index)))
+  assigns  nothing
+@*/
